@@ -23,6 +23,13 @@ def model_checks(tier):
 
 def rec(data, dyn=False, forms=False):
     data = bytes(data)
+    if len(data) % 7 == 3:
+        # a rejected call (unknown byte order, surplus argument) right before: what it leaves behind has no bearing on the next call
+        for bad in (lambda: crc32c(data, 'LITTLE'), lambda: crc32c(data + b'x', 'middle'), lambda: crc16(data, 'bogus'), lambda: crc16(None)):
+            try:
+                bad()
+            except Exception:
+                pass
     r = {'op': 'crc', 'data': list(data), 'c16': list(crc16(data)), 'c32le': list(crc32c(data)),
          'c32be': list(crc32c(data, 'big'))}
     if forms:
